@@ -6,7 +6,8 @@ import ShellOp.Model.HookRun
 * `exec <eid> allow=<0|1> exit=<n> metrics=<class> adm=<class> conv=<class> patch=<class>` — one
   execution with scripted outputs; the model runs `Run` + `handleRunHook` on its temp directory and
   answers with status and effects.
-* `prepfail <eid> created=<k>` — the (k+1)-th temp file cannot be created.
+* `prepfail <eid> created=<k>` — the (k+1)-th temp file cannot be created (the execution counts for
+  the names/leftover oracles as one that drew no names).
 * `tmpdir` — number of files in the temp directory now.
 * `oracle outcome|env|tmpdir|unique …` — the property on what the implementation showed.
 -/
